@@ -3,6 +3,7 @@
 // IWYU pragma: friend "rlbox_.*\.hpp"
 
 #include <cstring>
+#include <limits>
 #include <type_traits>
 
 #include "rlbox_helpers.hpp"
@@ -243,7 +244,11 @@ tainted<T*, T_Sbx> copy_memory_or_grant_access(rlbox_sandbox<T_Sbx>& sandbox,
                 "copy_memory_or_grant_access not supported on this type as "
                 "there may be ABI differences");
 
-  // overflow ok
+  // The element count must describe a buffer that fits the address space:
+  // the range checks below (and a backend that takes over or hands back the
+  // buffer in place) work on the size in bytes
+  detail::dynamic_check(num <= std::numeric_limits<size_t>::max() / sizeof(T),
+                        "Buffer size overflows the address space");
   size_t source_size = num * sizeof(T);
 
   // sandbox can grant access if it includes the following line
@@ -308,7 +313,11 @@ T* copy_memory_or_deny_access(rlbox_sandbox<T_Sbx>& sandbox,
                 "copy_memory_or_deny_access not supported on this type as "
                 "there may be ABI differences");
 
-  // overflow ok
+  // The element count must describe a buffer that fits the address space:
+  // the range checks below (and a backend that takes over or hands back the
+  // buffer in place) work on the size in bytes
+  detail::dynamic_check(num <= std::numeric_limits<size_t>::max() / sizeof(T),
+                        "Buffer size overflows the address space");
   size_t source_size = num * sizeof(T);
 
   // sandbox can grant access if it includes the following line
